@@ -293,6 +293,8 @@ def instances(tier):
     if th:
         for p in perms3:
             out.append(oracle_instance(3, 1, 3, 'multiply', 'greedy', np.array([p]).T))
+    from .common import lemma_instance
+    out.append(lemma_instance('C15', 'oracle', 'lemma:any-maximal-assignment-restores-the-reference-for-every-K'))
     out.append(lsa_bounded_instance())
     out.append(oracle_bounded_instance())
     out.append(int_types_bounded_instance())
